@@ -2,6 +2,8 @@ package main
 
 import (
 	"go/types"
+	"sort"
+	"strings"
 
 	"golang.org/x/tools/go/ssa"
 )
@@ -91,4 +93,189 @@ func runSnapshotNotReused(c *Ctx, reach map[*ssa.Function]bool) {
 		})
 	}
 	c.Anchor("C28.R3", "goroutines started by the node-level unsubscribe paths", n >= 1)
+}
+
+func init() {
+	if round2Docs["C27"] == nil {
+		round2Docs["C27"] = map[string]string{}
+	}
+	round2Docs["C27"]["C27.R6"] = "commutativity: every option field has one setter, so the order options are applied in cannot matter"
+	round3Hooks["C27"] = append(round3Hooks["C27"], runOptionSettersCommute)
+}
+
+// runOptionSettersCommute (C27.R6): the calling node applies the caller's options in the caller's order;
+// every other node rebuilds them from the control message in a fixed order of its own. The two agree for
+// every option list only if applying options commutes — structurally: no field of the options struct is
+// written by two different With* setters.
+func runOptionSettersCommute(c *Ctx) {
+	w := c.W
+	n := 0
+	for _, typ := range []string{"SubscribeOptions", "UnsubscribeOptions", "DisconnectOptions", "RefreshOptions"} {
+		fields := w.withSettableFields(typ)
+		for f, setters := range fields {
+			uniq := map[string]bool{}
+			for _, s := range setters {
+				uniq[s] = true
+			}
+			n++
+			var sorted []string
+			for s := range uniq {
+				sorted = append(sorted, s)
+			}
+			sort.Strings(sorted)
+			names := " " + strings.Join(sorted, " ")
+			c.CheckAt("C27.R6", typ+"."+f+": written by a single option setter", "options.go", len(uniq) == 1,
+				"two setters write the same field, so the result depends on the order they are applied in; the calling node uses the caller's order, remote nodes rebuild the options in the fixed order of handleControl:"+names)
+		}
+	}
+	c.Anchor("C27.R6", "option fields with a With* setter", n >= 10)
+}
+
+func init() {
+	if round2Docs["C30"] == nil {
+		round2Docs["C30"] = map[string]string{}
+	}
+	round2Docs["C30"]["C30.R5"] = "ownership: the write buffer goes back to the shared pool only after the network write that reads it"
+	round3Hooks["C30"] = append(round3Hooks["C30"], runWriteBufReleasedAfterWrite)
+}
+
+// runWriteBufReleasedAfterWrite (C30.R5): with a shared WriteBufferPool the connection's write buffer is
+// borrowed per message and handed back by endMessage. The frame bytes live in that buffer until
+// Conn.write has pushed them to the network; a buffer returned before the write can be taken by another
+// connection, which builds its frame over ours — the peer receives the other connection's bytes.
+// So inside the websocket package no Conn.write is reachable after a call that returns the write buffer.
+func runWriteBufReleasedAfterWrite(c *Ctx) {
+	w := c.W
+	isPut := func(ci ssa.CallInstruction) bool {
+		cc := ci.Common()
+		if cc.IsInvoke() && cc.Method.Name() == "Put" && strings.HasSuffix(typeShort(cc.Value.Type()), "BufferPool") {
+			return true
+		}
+		return false
+	}
+	release := w.wrapMay(isPut, 2)
+	netWrite := w.calleeIs("Conn.write")
+	n := 0
+	for _, f := range moduleFuncs(w) {
+		if f.Pkg == nil || !strings.HasSuffix(f.Pkg.Pkg.Path(), "internal/websocket") {
+			continue
+		}
+		writes := CallsIn(f, false, netWrite)
+		if len(writes) == 0 {
+			continue
+		}
+		EachInstr(f, func(in ssa.Instruction) {
+			if _, isDefer := in.(*ssa.Defer); isDefer {
+				return
+			}
+			ci := asCall(in)
+			if ci == nil || !release(in) || netWrite(ci) {
+				return
+			}
+			n++
+			var bad ssa.Instruction
+			for _, wr := range writes {
+				if Reaches(in, wr) {
+					bad = wr
+				}
+			}
+			c.Check("C30.R5", in, "no network write is reachable after the write buffer went back to the pool", bad == nil,
+				"the frame still lives in the pooled buffer: another connection sharing the pool can overwrite it before it is written, and the peer receives that connection's bytes"+instrAt(w, bad))
+		})
+	}
+	c.Anchor("C30.R5", "buffer releases in functions that write to the network", n >= 1)
+}
+
+func init() {
+	if round2Docs["C33"] == nil {
+		round2Docs["C33"] = map[string]string{}
+	}
+	round2Docs["C33"]["C33.R6"] = "domain agreement: a stream offset read from the wire is parsed as an unsigned 64-bit number in every framing"
+	round3Hooks["C33"] = append(round3Hooks["C33"], runOffsetParsedUnsigned)
+}
+
+// parsedSigned: v is the numeric result of strconv.Atoi / strconv.ParseInt, possibly handed back through
+// module helpers, phis and conversions.
+func parsedSigned(w *World, v ssa.Value, depth int, seen map[ssa.Value]bool) bool {
+	if v == nil || seen[v] || depth > 8 {
+		return false
+	}
+	seen[v] = true
+	switch x := v.(type) {
+	case *ssa.Convert:
+		return parsedSigned(w, x.X, depth+1, seen)
+	case *ssa.ChangeType:
+		return parsedSigned(w, x.X, depth+1, seen)
+	case *ssa.Phi:
+		for _, e := range x.Edges {
+			if parsedSigned(w, e, depth+1, seen) {
+				return true
+			}
+		}
+	case *ssa.Extract:
+		call, ok := x.Tuple.(*ssa.Call)
+		if !ok {
+			return false
+		}
+		f := w.Callee(call)
+		if f == nil {
+			return false
+		}
+		if f.Pkg != nil && f.Pkg.Pkg.Path() == "strconv" {
+			return x.Index == 0 && (f.Name() == "Atoi" || f.Name() == "ParseInt")
+		}
+		if !w.inModule(f) {
+			return false
+		}
+		found := false
+		EachInstr(f, func(in ssa.Instruction) {
+			if r, ok := in.(*ssa.Return); ok && !found {
+				vals := retVals(r)
+				if x.Index < len(vals) && parsedSigned(w, vals[x.Index], depth+1, seen) {
+					found = true
+				}
+			}
+		})
+		return found
+	}
+	return false
+}
+
+// runOffsetParsedUnsigned (C33.R6): stream offsets are uint64 end to end and the positioned framing parses
+// them with ParseUint(…, 64). A framing that parses the same quantity as a signed int and converts it
+// rejects (or mangles) the upper half of the domain: the same publication decodes in one framing and is
+// dropped as malformed in the other.
+func runOffsetParsedUnsigned(c *Ctx) {
+	w := c.W
+	n := 0
+	for _, f := range moduleFuncs(w) {
+		EachInstr(f, func(in ssa.Instruction) {
+			st, ok := in.(*ssa.Store)
+			if !ok {
+				return
+			}
+			fa, ok := st.Addr.(*ssa.FieldAddr)
+			if !ok {
+				return
+			}
+			_, fld, ok := FieldOf(fa)
+			if !ok || fld != "Offset" {
+				return
+			}
+			b, isB := st.Val.Type().Underlying().(*types.Basic)
+			if !isB || b.Kind() != types.Uint64 {
+				return
+			}
+			// only stores of parsed values are instances
+			if _, isConv := st.Val.(*ssa.Convert); !isConv {
+				if _, isEx := st.Val.(*ssa.Extract); !isEx {
+					return
+				}
+			}
+			n++
+			c.Check("C33.R6", in, "an Offset read from the wire is parsed over the whole uint64 domain", !parsedSigned(w, st.Val, 0, map[ssa.Value]bool{}),
+				"the offset is parsed as a signed int and converted: offsets ≥ 2^63 fail to parse in this framing while the sibling framing (ParseUint) accepts them — the publication is dropped as malformed ("+D(st.Val)+")")
+		})
+	}
+	c.Anchor("C33.R6", "stores of parsed or converted values into an Offset field", n >= 2)
 }
